@@ -7,7 +7,7 @@ from simkit.program import Cfg, gen_program
 from simkit import lifecycle as lc
 
 ID = "C01"
-RUNS = {"quick": 300_000, "thorough": 4_000_000}
+RUNS = {"quick": 220_000, "thorough": 4_000_000}
 SIM_TIME_UNIT = "scripted user operations executed"
 RULE = (
     "each run = one generated test program (ops per stage, cleanups registered anywhere, fixtures, "
